@@ -15,16 +15,22 @@ import (
 type SExpr interface{ String() string }
 
 type (
-	SLit   struct{ Val string }             // integer literal (decimal text)
-	SBoolL struct{ Val bool }               // true / false
-	SStr   struct{ Val string }             // string literal (decoded)
-	SNil   struct{}                         // nil
-	SId    struct{ Name string }            // identifier
-	SSel   struct{ X SExpr; Sel string }    // x.f
-	SIdx   struct{ X, I SExpr }             // x[i]
-	SSlice struct{ X, Lo, Hi SExpr }        // x[lo:hi], Lo/Hi may be nil
-	SCall  struct{ Fn string; Args []SExpr } // f(args) (Fn may be dotted)
-	SUn    struct {
+	SLit   struct{ Val string }  // integer literal (decimal text)
+	SBoolL struct{ Val bool }    // true / false
+	SStr   struct{ Val string }  // string literal (decoded)
+	SNil   struct{}              // nil
+	SId    struct{ Name string } // identifier
+	SSel   struct {
+		X   SExpr
+		Sel string
+	} // x.f
+	SIdx   struct{ X, I SExpr }      // x[i]
+	SSlice struct{ X, Lo, Hi SExpr } // x[lo:hi], Lo/Hi may be nil
+	SCall  struct {
+		Fn   string
+		Args []SExpr
+	} // f(args) (Fn may be dotted)
+	SUn struct {
 		Op string
 		X  SExpr
 	}
@@ -67,9 +73,11 @@ func (e SCall) String() string {
 	}
 	return e.Fn + "(" + strings.Join(as, ", ") + ")"
 }
-func (e SUn) String() string   { return e.Op + e.X.String() }
-func (e SBin) String() string  { return "(" + e.L.String() + " " + e.Op + " " + e.R.String() + ")" }
-func (e SCond) String() string { return "(" + e.C.String() + " ? " + e.A.String() + " : " + e.B.String() + ")" }
+func (e SUn) String() string  { return e.Op + e.X.String() }
+func (e SBin) String() string { return "(" + e.L.String() + " " + e.Op + " " + e.R.String() + ")" }
+func (e SCond) String() string {
+	return "(" + e.C.String() + " ? " + e.A.String() + " : " + e.B.String() + ")"
+}
 func (e SQuant) String() string {
 	q := "exists"
 	if e.Forall {
@@ -427,7 +435,7 @@ type LoopSpec struct {
 	Invariants []*Clause
 	Decreases  SExpr
 	DecSrc     string
-	Iter       []Effect // ghost updates performed at the start of every iteration
+	Iter       []Effect  // ghost updates performed at the start of every iteration
 	AtEnd      []*Clause // obligations at the end of every iteration (back edge only)
 }
 
@@ -452,8 +460,8 @@ type OnCall struct {
 	Ensures  []*Clause
 	Havoc    bool
 	NoHavoc  bool
-	HeapOnly bool // `havoc heap`: byte regions may change, object fields do not
-	Also     bool // extra preconditions only: the callee's own contract (or the unknown-call rule) still applies
+	HeapOnly bool     // `havoc heap`: byte regions may change, object fields do not
+	Also     bool     // extra preconditions only: the callee's own contract (or the unknown-call rule) still applies
 	Site     int      // 0 = every call site; k = only the k-th call site (source order)
 	Modifies []string // field paths rooted at a Go variable that the callee may change even though they are `stable`
 	Returns  SExpr
@@ -481,44 +489,44 @@ type SpecFunc struct {
 }
 
 type FuncContract struct {
-	Name      string // as written
-	Pkg       string // package path of the contract file (or "" for library specs)
-	Props     []string
-	Safety    []string // properties that own auto safety obligations; nil = Props
-	Mode      string   // "", "wrap"
-	Skeleton  bool
-	Trusted   bool
-	IntSizes  []int
-	ResNames  []string
-	Requires  []*Clause
-	Ensures   []*Clause
-	Modifies  []SExpr
-	ModAll    bool
+	Name         string // as written
+	Pkg          string // package path of the contract file (or "" for library specs)
+	Props        []string
+	Safety       []string // properties that own auto safety obligations; nil = Props
+	Mode         string   // "", "wrap"
+	Skeleton     bool
+	Trusted      bool
+	IntSizes     []int
+	ResNames     []string
+	Requires     []*Clause
+	Ensures      []*Clause
+	Modifies     []SExpr
+	ModAll       bool
 	FrameAssumed bool // `frame assumed`: the modifies list is used at call sites but not checked against the body
-	Pure      bool
-	Loops     map[int]*LoopSpec
-	Holds     []string // `holds x.lock`: the function is entered (and left) with this monitored lock held
-	ElemPtrs  []ElemPtrSpec // `elemptr res slice idx`: pointer result res is &slice[idx]
-	Maintain  []*Clause // running invariants: proved, then assumed, after every top-level statement of the body
-	Ghosts    []GhostDecl
-	OnCalls   []*OnCall
-	Stable    []string
-	MayAlias  bool
-	NoOverflow bool // add/sub results are assumed in range (skeleton functions with counters)
-	NoTerm    bool
-	AtReturn  []*Clause
-	File      string
-	Line      int
-	FieldsOf  string   // "reset-complete" style checks: type name
-	Classes   map[string]string // field -> class
-	Anchors   []string
-	Unfolds   []*Clause
-	Panics    bool // function may panic by contract (panic is not an obligation)
-	Lemma     bool // no Go body: the ensures clauses are proved from the requires clauses alone
-	LemmaParams []SpecParam
-	Calls     []LemmaCall // lemma body: straight-line calls of contracted functions
-	Uses      []string    // lemmas whose conclusions are assumed at entry
-	Synth     bool        // synthesised from a typeinv block
+	Pure         bool
+	Loops        map[int]*LoopSpec
+	Holds        []string      // `holds x.lock`: the function is entered (and left) with this monitored lock held
+	ElemPtrs     []ElemPtrSpec // `elemptr res slice idx`: pointer result res is &slice[idx]
+	Maintain     []*Clause     // running invariants: proved, then assumed, after every top-level statement of the body
+	Ghosts       []GhostDecl
+	OnCalls      []*OnCall
+	Stable       []string
+	MayAlias     bool
+	NoOverflow   bool // add/sub results are assumed in range (skeleton functions with counters)
+	NoTerm       bool
+	AtReturn     []*Clause
+	File         string
+	Line         int
+	FieldsOf     string            // "reset-complete" style checks: type name
+	Classes      map[string]string // field -> class
+	Anchors      []string
+	Unfolds      []*Clause
+	Panics       bool // function may panic by contract (panic is not an obligation)
+	Lemma        bool // no Go body: the ensures clauses are proved from the requires clauses alone
+	LemmaParams  []SpecParam
+	Calls        []LemmaCall // lemma body: straight-line calls of contracted functions
+	Uses         []string    // lemmas whose conclusions are assumed at entry
+	Synth        bool        // synthesised from a typeinv block
 }
 
 // LemmaCall is one step "call r1, r2 := F(args)" of a lemma body.
@@ -530,10 +538,10 @@ type LemmaCall struct {
 }
 
 type ContractDB struct {
-	Funcs map[string]*FuncContract // key: pkgpath + "::" + name  (library: name only)
-	Specs map[string]*SpecFunc
-	Files []string
-	Errs  []string
+	Funcs    map[string]*FuncContract // key: pkgpath + "::" + name  (library: name only)
+	Specs    map[string]*SpecFunc
+	Files    []string
+	Errs     []string
 	TypeInvs []*TypeInv
 }
 
